@@ -19,23 +19,23 @@ CHECKS = {
  "C04": (MC, "exhaustive enumeration of files x windows x option spellings x topic sets x read modes against the model filter",
          "For every small arrangement, every window over the critical time set expressed through each of 9 option spellings, every topic set and 4 read modes must return exactly the messages the model filter selects, also after earlier calls on the same Reader.", TB, "DESIGN §4 C04"),
  "C05": (MC, WS + "; spec validator oracle",
-         "Every emitted record, pointer, size and time field of every output file is checked by a decoder/validator written from the specification that shares no code with go/mcap.", TB + " Leniency: a non-zero summary_offset_start designating an empty section is accepted.", "DESIGN §4 C05"),
+         "Every emitted record, pointer, size and time field of every output file is checked by a decoder/validator written from the specification that shares no code with go/mcap; files re-emitted through the raw-record API (AddSchema/AddChannel/WriteChunkWithIndexes) are validated the same way.", TB + " Leniency: a non-zero summary_offset_start designating an empty section is accepted.", "DESIGN §4 C05"),
  "C06": (MC, WS + "; independent CRC recomputation",
          "Data-section, summary, chunk and attachment CRCs of every produced file are recomputed from the file bytes over the byte ranges the specification defines (zero for the first three when checksums are off).", TB, "DESIGN §4 C06"),
  "C07": (FE, "exhaustive single-bit-flip (and small multi-byte) fault enumeration over chunk payloads and attachment records, real validating lexer",
          "Every single-bit flip of every byte of every chunk's stored records field and of every attachment record's content is applied to written files (none/zstd/lz4) and read with the validating lexer (with and without invalid-chunk tokens): altered data must never be delivered as good; crafted attachment records (cut/hostile header fields, empty data) and both orders of the CRC calls are included; thorough adds bit pairs, 2-byte overwrites and range swaps.", TB + " An error that errors.Is(io.EOF) with records missing does not count as a report.", "DESIGN §4 C07"),
  "C08": (MC, WS + "; oracle = aggregates of the call log vs Writer.Statistics, statistics record and Info",
-         "Writer.Statistics after Close, the statistics record decoded by the reference decoder and Reader.Info must equal the true aggregates of the call log; Info listings must equal the summary groups the file keeps, whatever was called on the Reader before.", TB, "DESIGN §4 C08"),
+         "Writer.Statistics after Close, the statistics record decoded by the reference decoder and Reader.Info must equal the true aggregates of the call log; Info listings must equal the summary groups the file keeps, whatever was called on the Reader before; counts also hold for files re-emitted through the raw-record API.", TB, "DESIGN §4 C08"),
  "C09": (FE, "crash-point enumeration: every truncation position of every small written file, read by lexer and non-indexed iterator",
-         "Every prefix 0..len-1 of files (unchunked/none/zstd/lz4, CRC on/off, attachments and metadata between chunks) must read as a prefix of the original records, end with EOF or an error, never panic, and contain every message of every chunk completely before the cut; a lexer without attachment callback is included and a call that does not return is reported (watchdog).", TB, "DESIGN §4 C09"),
+         "Every prefix 0..len-1 of files (unchunked/none/zstd/lz4, CRC on/off, attachments and metadata between chunks) must read as a prefix of the original records, end with EOF or an error, never panic, and contain every message of every chunk completely before the cut; a lexer without attachment callback is included and a call that does not return is reported (watchdog); files with records above every lexer threshold (100 KiB message, 70 KiB attachment, 66 KiB schema) are cut around every record boundary.", TB, "DESIGN §4 C09"),
  "C10": (MC, "bounded-exhaustive structured mutation (position-exhaustive depth 1 + structural families) through 12 decode entry points in isolated worker processes; thorough adds depth 2 over all pairs of size/offset/count fields",
-         "For every byte offset of the seed files and every width 1/2/4/8 each hostile value (and v-1, v+1) is written; records are duplicated/removed/swapped, nested into chunks (chunk in chunk, file in chunk) and spliced pairwise; compression names of every length; near-2^31 lengths; every mutant runs through the lexer under 6 option sets (incl. every Parse*), Info+ChannelCounts, 4 iterator modes and random access inside workers with capped address space, stack, per-call stall deadline and allocation accounting: outcome must be ok or error.", TB + " quick defers mutants that legitimately allocate up to the documented 2 GiB ceiling to thorough.", "DESIGN §4 C10"),
+         "For every byte offset of the seed files and every width 1/2/4/8 each hostile value (and v-1, v+1) is written; records are duplicated/removed/swapped, truncated (body cut by 1..24 bytes with lengths fixed up, also with the trailing length prefix reduced alike), nested into chunks (chunk in chunk, file in chunk) and spliced pairwise; compression names of every length; near-2^31 lengths; every mutant runs through the lexer under 6 option sets (incl. every Parse*), Info+ChannelCounts, 4 iterator modes and random access inside workers with capped address space, stack, per-call stall deadline and allocation accounting: outcome must be ok or error.", TB + " quick defers mutants that legitimately allocate up to the documented 2 GiB ceiling to thorough.", "DESIGN §4 C10"),
  "C11": (MC, "exhaustive enumeration of unknown-record insertion positions and record tails on reference-encoded files, differential against the un-augmented file",
-         "An unknown record (4 opcodes x 4 lengths) at every legal position (top level, inside chunks, summary boundaries), at all positions at once, and tails on every extensible record kind must leave everything the Go readers report unchanged.", TB, "DESIGN §4 C11"),
+         "An unknown record (4 opcodes x 4 lengths) at every legal position (top level, inside chunks, summary boundaries), at all positions at once, and tails on every extensible record kind must leave everything the Go readers report unchanged, and every top-level record parsed by the library's Parse* functions must equal the reference decoder's reading of the same body.", TB, "DESIGN §4 C11"),
  "C12": (MC, "exhaustive enumeration of legal layouts of fixed logical contents by the reference encoder, read by all Go readers",
-         "Chunk partitions (incl. empty chunks), per-chunk compression, schema/channel placement, all 720 summary group orders and all 256 optional-section subsets (all pairs of dimensions in quick, full product for small contents in thorough): every reader must return the logical content.", TB, "DESIGN §4 C12"),
+         "Chunk partitions (incl. empty chunks), per-chunk compression, schema/channel placement, all 720 summary group orders and all 256 optional-section subsets (all pairs of dimensions in quick, full product for small contents in thorough): every reader (incl. a default read restricted to each topic) must return the logical content; summaries that do not repeat schema/channel records may make index-based reads refuse, never return a silent subset.", TB, "DESIGN §4 C12"),
  "C13": (MC, "exhaustive map-range permutation (overlay rewrite regenerated from the tree) + exhaustive instance interleavings under a cooperative scheduler (preemption-bounded) + GOMAXPROCS subprocess sweep; free-running -race pass as supporting evidence",
-         "(a) every permutation of every map range reached by the workloads (deviation bound 2) must leave the output bytes unchanged; (b) every interleaving of 2 [3] independent writer/lexer instances at API-call, sink-write and source-read granularity with at most 2 preemptions must give each instance its solo result; (c) 45 configurations give the same digest under GOMAXPROCS 1, 2, 4, 16; (d) 16 free-running goroutines under the race detector (a different technique, supporting only); (e) every sequence of <=3 writers in one process with fresh or reused argument objects must reproduce the digest of a fresh process.", TB + " The map-range rewrite is assumed semantics-preserving for any fixed order; interleavings finer than library-to-caller calls are only covered by (d).", "DESIGN §4 C13"),
+         "(a) every permutation of every map range reached by the workloads (incl. keys a sloppy comparator ties; deviation bound 2) must leave the output bytes unchanged; (a2) package-level state the library modifies is located with go/types and, if any exists, all interleavings of two colliding writers at every statement that can reach it are explored (0 sites on the current tree); (b) every interleaving of 2 [3] independent writer/lexer instances at API-call, sink-write and source-read granularity with at most 2 preemptions must give each instance its solo result; (c) 45 configurations give the same digest under GOMAXPROCS 1, 2, 4, 16; (d) 16 free-running goroutines under the race detector (a different technique, supporting only); (e) every sequence of <=3 writers in one process with fresh or reused argument objects must reproduce the digest of a fresh process.", TB + " The map-range rewrite is assumed semantics-preserving for any fixed order; interleavings finer than library-to-caller calls are only covered by (d).", "DESIGN §4 C13"),
  "C14": (FE, "deviation-bounded exhaustive sink/attachment-source fault enumeration on the real writer",
          "Every destination Write call of every workload x configuration is failed in turn (error / short count / ErrShortWrite, transient and sticky): the call it hits must return an error, nothing may panic, accepted bytes must stay a prefix of the fault-free output (checked after every write); every attachment source failure/early/late end must be reported.", TB + " Contract-violating sinks (short count, nil error) are out of scope.", "DESIGN §4 C14"),
  "C15": (FE, "exhaustive delivery-policy and source-error enumeration on the real lexer/iterators/Info",
